@@ -14,6 +14,10 @@ def parseEv (t : String) : Option Ev :=
   | ["recvStart"] => some .recvStart
   | ["recvRet", m] => some (.recvRet m.toNat!)
   | ["recvSynthetic"] => some .recvSynthetic
+  | ["recvCancelled"] => some .recvCancelled
+  | ["sendOk"] => some .sendOk
+  | ["sendDisc"] => some .sendDisc
+  | ["stop"] => some .stop
   | _ => none
 def step (line : String) : String :=
   match line.trimAscii.toString.splitOn " " with
@@ -21,7 +25,9 @@ def step (line : String) : String :=
     match toks.filter (· != "") |>.mapM parseEv with
     | some evs =>
       match accept (4 * evs.length + 8) { cap := cap.toNat! } evs 0 with
-      | .ok _ => "accepted"
+      | .ok s =>
+        -- also report the final observables: queue length, events held, returned/delivered counts, flag, pump alive
+        s!"accepted q={s.q.length} held={(held s).length} ret={(returned evs).length} dlv={(delivered evs).length} disc={if s.disc then 1 else 0} pump={if s.pump == .exited then 0 else 1}"
       | .error e => "REJECTED " ++ e
     | none => "bad-op"
   | _ => "bad-op"
